@@ -6,6 +6,8 @@ CONSTANTS Coef2 <- R22
  CoefA3 <- S202
  CoefB3 <- S11
  Const3 <- R11
+ CoefR <- R11
+ ConstR <- Z0
  B = 16
  BU = 7
  BS = 6
